@@ -92,7 +92,9 @@ func (r Resources) ContainsBucketPattern() bool {
 // Bucket resources should start with bucket name: arn:aws:s3:::MyBucket/*
 func (r Resources) Validate(bucket string) error {
 	for resource := range r {
-		if !strings.HasPrefix(resource, bucket) {
+		// the bucket itself, or something below "<bucket>/": a bare prefix test
+		// would also accept resources of another bucket such as "<bucket>2/*"
+		if resource != bucket && !strings.HasPrefix(resource, bucket+"/") {
 			return policyErrInvalidResource
 		}
 	}
